@@ -636,16 +636,13 @@ func pfAnyCalleeReadsField(fn *ssa.Function, name string) bool {
 // ---------------------------------------------------------------------------------------------
 // R4
 
-// c03AvailableCondOf: v is FindStatusCondition(X.GetConditions(), "Available"); returns X.
+// c03AvailableCondOf: v is FindStatusCondition(X.GetConditions(), "Available") — or an equivalent
+// spelling of that lookup (pfFoundCondition); returns X.
 func (p *Program) c03AvailableCondOf(v ssa.Value) (ssa.Value, bool) {
-	call, _ := asCall(v)
-	if call == nil || !isCallTo(call.Common(), pkgMeta+".FindStatusCondition") || len(call.Common().Args) != 2 {
+	_, conds, typ, ok := p.pfFoundCondition(v)
+	if !ok || typ != "Available" {
 		return nil, false
 	}
-	if !isStringConst(call.Common().Args[1], "Available") {
-		return nil, false
-	}
-	conds := call.Common().Args[0]
 	if u, ok := conds.(*ssa.UnOp); ok && u.Op == token.MUL {
 		conds = u.X
 	}
@@ -704,7 +701,7 @@ func c03r4(c *Ctx) {
 			// class-less no-op
 			classless := false
 			for _, f := range rc.Facts {
-				if x, nonEmptyWhenTrue, ok := lenCmp(f.Cond); ok && f.Pol != nonEmptyWhenTrue {
+				if x, nonEmptyWhenTrue, ok := pfEmptyCmp(f.Cond); ok && f.Pol != nonEmptyWhenTrue {
 					if root, ok := p.pfFieldLoad(x, "Class"); ok && p.pfRootValue(root) == ssa.Value(phaseParam) {
 						classless = true
 					}
@@ -801,7 +798,7 @@ func c03ClasslessUnreachable(c *Ctx, o *Obligation, impl *ssa.Function) {
 			}
 			guarded := false
 			for _, f := range p.FactsAt(cc.Instr.Block()) {
-				if x, nonEmptyWhenTrue, ok := lenCmp(f.Cond); ok && f.Pol == nonEmptyWhenTrue {
+				if x, nonEmptyWhenTrue, ok := pfEmptyCmp(f.Cond); ok && f.Pol == nonEmptyWhenTrue {
 					if root, ok := p.pfFieldLoad(x, "Class"); ok && p.pfRootValue(root) == argRoot {
 						guarded = true
 					}
